@@ -3,7 +3,7 @@ import re
 
 from ..core.engine import Res
 from ..core.rules import exhaustive_loop
-from ..core.rules import who_calls, wire, order, must_pass, branch_must_pass, guard, call_matches
+from ..core.rules import who_calls, wire, order, must_pass, branch_must_pass, guard, call_matches, predicate_implied_by
 from ..core.origins import Origins
 from ..core.facts import callee_name
 
@@ -140,6 +140,18 @@ def run(ctx):
               lambda P_: wire(P_, 'TreeKem::decap', r'TreeKem::find_ciphertext_pos$', 3, r'^added_leaves$'), floor=1)
     ctx.check('SIBLING', 'receiver skips only LEAF entries of the resolution that were added by the commit (as the sender does)',
               receiver_exclusion, floor=1)
+    # a commit that removes a member must carry an update path (fresh commit secret the removed member cannot derive):
+    # the predicate both the committer and every receiver consult answers `true` whenever a non-local Remove is present,
+    # whatever else the commit carries
+    ctx.check('IMPLIES', 'a commit covering a Remove requires an update path',
+              lambda P_: predicate_implied_by(P_, 'proposal_filter::path_update_required', r'has_non_local_proposal$', r'remove_proposals\(proposals\)'), floor=1)
+    ctx.check('IMPLIES', 'a commit covering a SelfRemove requires an update path',
+              lambda P_: predicate_implied_by(P_, 'proposal_filter::path_update_required', r'has_non_local_proposal$', r'proposals\.self_removes'), floor=1, configs=['C'])
+    ctx.check('GUARD', 'receiver rejects a path-less commit when a path is required',
+              lambda P_: guard(P_, 'MessageProcessor::process_commit', 'truth', r'is_none\(.*path\)', None, 'CommitMissingPath'), floor=1)
+    for fq in ('Group::commit_internal', 'MessageProcessor::process_commit'):
+        ctx.check('WIRE', fq + ': path requirement is decided on the proposals actually applied',
+                  lambda P_, fq=fq: wire(P_, fq, r'path_update_required$', 0, r'apply_resolved\(.*\)\.applied_proposals$|provisional_state\.applied_proposals$'), floor=1)
     G = 'Group::encrypt_group_secrets'
     ctx.check('WIRE', 'joiner secrets are encrypted to the init key of the added key package',
               lambda P_: wire(P_, G, r'HpkeEncryptable::encrypt$', 2, r'^key_package\.hpke_init_key$'), floor=1)
